@@ -45,6 +45,8 @@ pub struct MonState {
     pub cap: Option<usize>,
     /// Return `Unknown` at this call number (1-based), without consulting the backend.
     pub inject_unknown_at: Option<usize>,
+    /// Every call from this number on answers `Unknown` (a backend that died stays dead).
+    pub inject_unknown_from: Option<usize>,
     pub injected: bool,
     /// Contract violations observed (model falsifying a clause/assumption, n_vars shrinking, ...).
     pub contract_errors: Vec<String>,
@@ -149,7 +151,8 @@ impl SatSolver for MonitorSolver {
         };
         let (cap, inject) = {
             let s = self.state.borrow();
-            (s.cap, s.inject_unknown_at)
+            let from = s.inject_unknown_from.filter(|f| call_no >= *f).map(|_| call_no);
+            (s.cap, s.inject_unknown_at.or(from))
         };
         if let Some(c) = cap {
             if call_no > c {
